@@ -883,11 +883,11 @@ theorem simF_call_builtin {k : Nat} (hA : FClaimA (k + 1)) {h name : String} (hn
     -- the successful case, uniformly in the new heap and trace
     have hok : ∀ (v : Val) (s3 : St) (rsF : Ref.St), foResult name vs (inBuiltin s1 s.data) = (.ok v, s3) →
         s3.scopes = s1.scopes → s3.linear = s1.linear → s3.fns = s1.fns → s3.suspended = s1.suspended →
-        s3.loops = s1.loops →
+        s3.loops = s1.loops → s3.lazies = s1.lazies → rsF.thunks = rs1.thunks →
         rsF.frames = rs1.frames → rsF.clos = rs1.clos → rsF.heap = trHeap m1 id id s3.heap → s3.trace = rsF.trace →
         HOk m1 s1 rs1 s3.heap → VOk m1 s1 rs1 v →
         SimF [.callExpr (.sym h) args] m s rs env (.ok (trf m1 v) rsF) := by
-      intro v s3 rsF hres hsc hlin hfns hsus hlps hfr hcl hheap htr hhok hvok
+      intro v s3 rsF hres hsc hlin hfns hsus hlps hlzs hths hfr hcl hheap htr hhok hvok
       let sF : St := { s3 with data := some v :: s.data, addr := s1.addr, curfunc := s1.curfunc, pc := s1.pc + 1 }
       have hx : ∀ f, M + 3 ≤ f → (exec (f + 1) (.callExpr (.sym h) args)).run s = (.ok (), sF) := by
         intro f hf
@@ -895,7 +895,7 @@ theorem simF_call_builtin {k : Nat} (hA : FClaimA (k + 1)) {h name : String} (hn
         rw [hexec (G + 1), run_bind, hM (G + 1 + 1) (by omega)]
         simp only
         rw [hlen, hcu G, hres]; rfl
-      have hrelF : RelF m1 sF rsF env := rel1.of_same hsc hlin hfns rfl hfr hcl hheap htr hhok (LoopsExt.of_eq hlps)
+      have hrelF : RelF m1 sF rsF env := rel1.of_same hsc hlin hfns rfl hfr hcl hheap htr hhok (LoopsExt.of_eq hlps) hlzs hths
       have hfnF : fnOf sF sF.curfunc = fnOf s s.curfunc := by
         show s3.fns.getD s1.curfunc {} = _
         rw [hfns, fr1.curfunc]; exact fr1.fns _ hcurlt
@@ -919,7 +919,7 @@ theorem simF_call_builtin {k : Nat} (hA : FClaimA (k + 1)) {h name : String} (hn
       have hpr : pr rs1.heap (vs'.headD .nil) = pr (inBuiltin s1 s.data).heap (vs.headD .nil) := by
         rw [hheapb, hvs, headD_map_tr]; exact pr_tr m1 id id _ _
       rw [hvs, headD_map_tr]
-      refine hok _ _ { rs1 with trace := rs1.trace ++ [pr rs1.heap (trf m1 (vs.headD .nil))] } hfo rfl rfl rfl rfl rfl rfl rfl
+      refine hok _ _ { rs1 with trace := rs1.trace ++ [pr rs1.heap (trf m1 (vs.headD .nil))] } hfo rfl rfl rfl rfl rfl rfl rfl rfl rfl
         rel1.heap ?_ rel1.hok ?_
       · show (inBuiltin s1 s.data).trace ++ [pr (inBuiltin s1 s.data).heap _] = _
         rw [htrb, ← headD_map_tr, ← hvs, hpr]
@@ -938,7 +938,7 @@ theorem simF_call_builtin {k : Nat} (hA : FClaimA (k + 1)) {h name : String} (hn
           rw [hp]
         simp only [Option.map_some]
         have hpc := prim_valIn name vs s1.heap v hp' hp hclvs rel1.hok
-        exact hok v _ { rs1 with heap := trHeap m1 id id hp' } hfo rfl rfl rfl rfl rfl rfl rfl rfl rel1.trace hpc.2 hpc.1
+        exact hok v _ { rs1 with heap := trHeap m1 id id hp' } hfo rfl rfl rfl rfl rfl rfl rfl rfl rfl rfl rel1.trace hpc.2 hpc.1
       | none =>
         have hfo : foResult name vs (inBuiltin s1 s.data) = (.error .err, inBuiltin s1 s.data) := by
           unfold foResult; rw [if_neg ht]
